@@ -266,3 +266,44 @@ Example C12_ex_deconstruct_nary :
   decon_nary flags_current 30 (PInst (PApp (PApp (PSym 7) (pphi 1)) (pphi 0)) [(1, neg_p (PEVar 1)); (0, PEVar 2)]) =
   Some (PSym 7, [neg_p (PEVar 1); PEVar 2]).
 Proof. vm_compute. reflexivity. Qed.
+
+(** ================================================================================================
+    C12_source_*: the theorems stated of the functions GENERATED from the current source
+    (coq/Gen/PyPattern.v, rewritten from pattern.py / basic_interpreter.py on every run by translators/pypattern.py;
+    agreement with the model: coq/Py/GenPyPatternAgree.v). *)
+From Pi2 Require Import Py.GenSupport Gen.PyPattern Py.GenPyPatternAgree Py.SourceFacts.
+Theorem C12_source_agreement : forall n,
+  (forall p d, src_instantiate n p d = py_inst flags_current n p d) /\
+  (forall p x g, src_apply_esubst n p x g = py_esubst flags_current n p x g) /\
+  (forall p x g, src_apply_ssubst n p x g = py_ssubst flags_current n p x g).
+Proof. exact src_ops_eq. Qed.
+Theorem C12_source_agreement_fresh : forall n p x, src_evar_is_free n p x = py_fresh flags_current n p x.
+Proof. exact src_evar_is_free_eq. Qed.
+Theorem C12_source_agreement_metavars : forall p, src_metavars p = metavars p.
+Proof. exact src_metavars_eq. Qed.
+Theorem C12_source_fresh_transparent : forall se ss n p x r, corner_free se ss p = true ->
+  src_evar_is_free n p x = Some r -> r = e_fresh (expand flags_current p) x.
+Proof. exact source_fresh_expand. Qed.
+Theorem C12_source_fresh_total : forall se ss p x n, corner_free se ss p = true -> (dm p one <= n)%nat ->
+  src_evar_is_free n p x = Some (e_fresh (expand flags_current p) x).
+Proof. exact source_fresh_total. Qed.
+Theorem C12_source_inst_transparent : forall se ss n p d r, corner_free se ss p = true -> cfd se ss d = true ->
+  src_instantiate n p d = Some r -> expand flags_current r = p_inst flags_current (expand flags_current p) (expand_delta flags_current d).
+Proof. exact source_inst_expand. Qed.
+Theorem C12_source_esubst_transparent : forall se ss n p x g r, corner_free se ss p = true -> mem x se = true ->
+  corner_free se ss g = true -> src_apply_esubst n p x g = Some r ->
+  expand flags_current r = p_esubst flags_current (expand flags_current p) x (expand flags_current g).
+Proof. exact source_esubst_expand. Qed.
+Theorem C12_source_ssubst_transparent : forall se ss n p x g r, corner_free se ss p = true -> mem x ss = true ->
+  corner_free se ss g = true -> src_apply_ssubst n p x g = Some r ->
+  expand flags_current r = p_ssubst flags_current (expand flags_current p) x (expand flags_current g).
+Proof. exact source_ssubst_expand. Qed.
+Theorem C12_source_metavars_incl : forall p k, In k (p_metavars (expand flags_current p)) -> In k (src_metavars p).
+Proof. exact source_metavars_incl. Qed.
+Theorem C12_source_metavars_exact : forall p, psubfree p = true ->
+  forall k, In k (src_metavars p) <-> In k (p_metavars (expand flags_current p)).
+Proof. exact source_metavars_exact. Qed.
+Print Assumptions C12_source_inst_transparent.
+Example C12_source_ex : src_evar_is_free 30 (and_p (PEVar 1) (neg_p (PEVar 2))) 1 = Some false /\
+  src_instantiate 30 d5_pat d5_delta = Some (PInst (PImp (pphi 0) (pphi 1)) [(0, PEVar 7); (1, pphi 0)]).
+Proof. vm_compute. split; reflexivity. Qed.
